@@ -76,7 +76,7 @@ func schema(v *vector) []event {
 	if err != nil {
 		return fail("validate", err.Error())
 	}
-	opts := &openapi3filter.Options{AuthenticationFunc: openapi3filter.NoopAuthenticationFunc, IncludeResponseStatus: true}
+	opts := &openapi3filter.Options{AuthenticationFunc: openapi3filter.NoopAuthenticationFunc, IncludeResponseStatus: true, SkipSettingDefaults: true}
 	out := make([]event, 0, len(v.Exchanges))
 	for _, x := range v.Exchanges {
 		ev := event{"id": x.ID, "req": "ok", "resp": "none"}
@@ -92,9 +92,7 @@ func schema(v *vector) []event {
 				return
 			}
 			for k, vs := range x.Req.Headers {
-				for _, s := range vs {
-					req.Header.Add(k, s)
-				}
+				addHeader(req.Header, k, vs)
 			}
 			route, pathParams, err := router.FindRoute(req)
 			if err != nil {
@@ -110,9 +108,7 @@ func schema(v *vector) []event {
 			}
 			h := http.Header{}
 			for k, vs := range x.Resp.Headers {
-				for _, s := range vs {
-					h.Add(k, s)
-				}
+				addHeader(h, k, vs)
 			}
 			rin := &openapi3filter.ResponseValidationInput{RequestValidationInput: in, Status: x.Resp.Status, Header: h,
 				Body: io.NopCloser(strings.NewReader(x.Resp.Body)), Options: opts}
@@ -125,6 +121,20 @@ func schema(v *vector) []event {
 		out = append(out, ev)
 	}
 	return out
+}
+
+// addHeader sets a header field.  Several field lines with the same name are the same message as one line
+// with the values joined by commas (RFC 9110 section 5.3); kin-openapi only looks at the first line, so the
+// combined form is handed over (Cookie / Set-Cookie keep their lines).
+func addHeader(h http.Header, k string, vs []string) {
+	ck := http.CanonicalHeaderKey(k)
+	if len(vs) > 1 && ck != "Set-Cookie" && ck != "Cookie" {
+		h.Set(k, strings.Join(vs, ","))
+		return
+	}
+	for _, s := range vs {
+		h.Add(k, s)
+	}
 }
 
 type panicErr struct{ v any }
